@@ -109,6 +109,7 @@ def tree_hash(with_tests=False):
     _hash_files(h, VERIF, ["tools/fcppt-facts.cpp", "drivers/drv.hpp"])
     if OVERLAY:
         _hash_files(h, OVERLAY, ["."])
+        h.update(OVERLAY.encode())      # facts record absolute file names: another overlay directory is another cache entry
     h.update(REPO.encode())
     return h.hexdigest()[:20]
 
